@@ -11,7 +11,7 @@ def jtable(name):
     d = json.load(open(os.path.join(VERIF, 'tables', name)))
     d.pop('_comment', None)
     from ..absint import std_name
-    return dict((std_name(k), v) for k, v in d.items())
+    return dict((mir.canon(std_name(k)), v) for k, v in d.items())
 
 
 def is_decode_root(i):
@@ -335,8 +335,8 @@ def f_unsafe(ctx, prog):
     allowed = {
         'minicbor::decode::ArrayVec::<T, N>::into_array': 'reads [MaybeUninit<T>; N] as [T; N] under len == N, then forgets self',
         '<minicbor::decode::ArrayVec<T, N> as std::ops::Drop>::drop': 'drops the first `len` initialised elements',
-        "<&'a minicbor::bytes::ByteSlice as std::convert::From<&'a [u8]>>::from": 'repr(transparent) reference cast',
-        "<&'a mut minicbor::bytes::ByteSlice as std::convert::From<&'a mut [u8]>>::from": 'repr(transparent) reference cast',
+        "<&'_ minicbor::bytes::ByteSlice as std::convert::From<&'_ [u8]>>::from": 'repr(transparent) reference cast',
+        "<&'_ mut minicbor::bytes::ByteSlice as std::convert::From<&'_ mut [u8]>>::from": 'repr(transparent) reference cast',
     }
     seen = set()
     for u in prog.unsafe_blocks:
@@ -420,7 +420,7 @@ def f_unsafe(ctx, prog):
         else:
             ctx.violation('F-UNSAFE.arrayvec', 'into_array|shape', 'expected one ptr::read, a len == N guard and mem::forget(self); found %d read(s), %d guard(s), %d forget(s)' % (len(reads), len(guards), len(forgets)), mir.loc(ia['sp']))
     # partial decode failure drops what was decoded: the [T; N] impl holds the ArrayVec as a local that is dropped on the error edges
-    arr = prog.one("<[T; N] as minicbor::decode::Decode<'b, C>>::decode")
+    arr = prog.one("<[T; N] as minicbor::decode::Decode<'_, C>>::decode")
     if arr is None:
         ctx.fail_closed('F-UNSAFE.arrayvec', '[T; N]::decode not found')
     else:
@@ -527,7 +527,7 @@ def whole_buf_copy_into_new(body, stmt, pl):
 def f_input(ctx, prog):
     D = 'minicbor::decode::decoder::Decoder'
     buf_ok = {DEC + x for x in ('current', 'read', 'peek', 'read_slice', 'input', 'new')} | {DEC + 'peek::{closure#0}', DEC + 'read_slice::{closure#0}',
-                                                                                             "<minicbor::decode::decoder::Decoder<'b> as std::fmt::Debug>::fmt", "<minicbor::decode::decoder::Decoder<'b> as std::clone::Clone>::clone"}
+                                                                                             "<minicbor::decode::decoder::Decoder<'_> as std::fmt::Debug>::fmt", "<minicbor::decode::decoder::Decoder<'_> as std::clone::Clone>::clone"}
     pos_w_ok = {DEC + x for x in ('read', 'read_slice', 'set_position', 'new')}
     n = 0
     for inst in prog.insts.values():
@@ -569,7 +569,7 @@ def f_input(ctx, prog):
                         ctx.violation('F-INPUT.buf', inst['path'], 'Decoder.buf is accessed outside the checked input primitives', mir.loc(s.get('sp')))
     ctx.floor('F-INPUT', 'field accesses', n, 8)
     # end_of_input is produced only by the input primitives (calls and fn-item references)
-    eoi_ok = {DEC + x for x in ('current', 'read', 'peek', 'read_slice')} | {'minicbor::decode::info::Size::tail', 'minicbor_serde::de::Deserializer::<\'de>::current', 'minicbor_serde::de::Deserializer::<\'de>::read'}
+    eoi_ok = {DEC + x for x in ('current', 'read', 'peek', 'read_slice')} | {'minicbor::decode::info::Size::tail', 'minicbor_serde::de::Deserializer::<\'_>::current', 'minicbor_serde::de::Deserializer::<\'_>::read'}
     for inst in prog.insts.values():
         if inst['krate'] not in ('minicbor', 'minicbor_serde'):
             continue
@@ -655,7 +655,7 @@ def may_consume(prog):
     primitives (read, read_slice, set_position and the serde twin) - whatever the functions in between are called"""
     if id(prog) in _may_consume:
         return _may_consume[id(prog)]
-    base = {DEC + 'read', DEC + 'read_slice', DEC + 'set_position', 'minicbor_serde::de::Deserializer::<\'de>::read'}
+    base = {DEC + 'read', DEC + 'read_slice', DEC + 'set_position', 'minicbor_serde::de::Deserializer::<\'_>::read'}
     callers = {}
     for inst in prog.insts.values():
         for bi, t in mir.iter_calls(inst['body']):
@@ -787,7 +787,7 @@ def run(ctx):
     reach = set(by_path.values())
     ctx.count('entry points', len(roots))
     ctx.count('reachable functions', len(reach))
-    ctx.floor('C02', 'decode entry points', len(roots), 400)
+    ctx.floor('C02', 'decode entry points', len(roots), 300)
     ctx.rules_run.append('F-PANIC: every potential panic site (Assert terminators, panicking std callees, diverging calls) reachable from the decoding entry points is discharged by the range analysis or a justified table row')
     # the checked input primitives (and private helpers only they call) carry their own panic obligation: T-PRIM interprets each of
     # them whole, with the bounds check's outcome as an assumption, and reports any assert left open (T-PRIM|arith)
